@@ -41,6 +41,7 @@ type Thread struct {
 	lastKind string
 	epoch    int // scheduler step at which the pending operation was first seen (FIFO fairness of the default schedule)
 	seen     bool
+	parked   bool // PARK deviation: lowest priority until nothing else is enabled
 }
 
 // Point is one scheduling point of an execution.
@@ -65,6 +66,7 @@ type Sched struct {
 
 	Horizon  time.Duration // virtual-time budget of one execution, measured from Run()
 	Delay    time.Duration // >0: a DELAY alternative (suspend the default thread that long) is offered
+	Park     bool          // a PARK alternative (default thread gets lowest priority until nothing else is enabled) is offered
 	StepCap  int
 	Steps    int
 	Trace    bool
@@ -304,7 +306,7 @@ func Run() (res Result) {
 		}
 		S.mu.Lock()
 		allDone := true
-		var en, qs []*Thread
+		var en, qs, pk []*Thread
 		var waiting []string
 		native := false
 		for _, th := range S.threads {
@@ -330,7 +332,11 @@ func Run() (res Result) {
 				continue
 			}
 			if th.pending.Enabled == nil || th.pending.Enabled() {
-				en = append(en, th)
+				if th.parked {
+					pk = append(pk, th)
+				} else {
+					en = append(en, th)
+				}
 			} else {
 				waiting = append(waiting, desc(th))
 			}
@@ -339,16 +345,19 @@ func Run() (res Result) {
 			S.mu.Unlock()
 			return
 		}
+		if len(en) == 0 && len(pk) > 0 {
+			en = pk // parked threads resume when nothing else can run
+		}
 		if len(en) == 0 && len(qs) > 0 {
 			en = qs
 		}
 		elapsed := time.Since(start)
-		if elapsed > S.Horizon {
-			if len(en) > 0 {
-				S.mu.Unlock()
-				res.Err = fmt.Sprintf("virtual horizon %v reached with enabled threads (cap)", S.Horizon)
-				return
-			}
+		if elapsed > 2*S.Horizon && len(en) > 0 {
+			S.mu.Unlock()
+			res.Err = fmt.Sprintf("twice the virtual horizon %v reached with enabled threads (cap)", S.Horizon)
+			return
+		}
+		if elapsed > S.Horizon && len(en) == 0 {
 			res.Deadlock = true
 			for _, th := range S.threads {
 				if th.Done {
@@ -379,7 +388,7 @@ func Run() (res Result) {
 		for _, th := range en {
 			names = append(names, desc(th))
 		}
-		timeIdx, delayIdx := -1, -1
+		timeIdx, delayIdx, parkIdx := -1, -1, -1
 		if len(en) == 0 || native {
 			timeIdx = len(names)
 			names = append(names, "TIME")
@@ -387,6 +396,10 @@ func Run() (res Result) {
 		if len(en) > 0 && S.Delay > 0 {
 			delayIdx = len(names)
 			names = append(names, "DELAY")
+		}
+		if len(en) > 1 && S.Park && !en[0].parked {
+			parkIdx = len(names)
+			names = append(names, "PARK")
 		}
 		step := len(S.Points)
 		choice := 0
@@ -419,13 +432,26 @@ func Run() (res Result) {
 			th.lastKind = th.pending.Kind
 			th.pending = nil
 			th.seen = false
+			th.parked = false
 			close(th.wake)
 			S.mu.Unlock()
 		case choice == timeIdx:
 			S.cur = nil
 			S.mu.Unlock()
 			d := S.Horizon - elapsed + time.Second
+			if len(en) > 0 {
+				// TIME as a deviation: let the clock run to the next timer, at most one delay quantum
+				// (with nothing else pending the default thread simply continues afterwards)
+				q := S.Delay
+				if q <= 0 {
+					q = 6 * time.Second
+				}
+				d = min(d, q)
+			}
 			S.waitArrival(d)
+		case choice == parkIdx:
+			en[0].parked = true
+			S.mu.Unlock()
 		case choice == delayIdx:
 			th := en[0]
 			th.delayed = true
